@@ -147,7 +147,7 @@ EXTRA_FIELDS = [
 
 def gen_response(tape, method='GET', allow_truncate=False, allow_surplus=True, allow_close_framing=True,
                  allow_nobody_with_length=True, allow_coding=True, allow_lf=True, allow_fold=True,
-                 big_ok=True, content_types=None):
+                 big_ok=True, content_types=None, surplus_same_read_only=False):
     r = Resp()
     rng = tape.subrng('resp.rng')
     r.method = method
@@ -263,6 +263,8 @@ def gen_response(tape, method='GET', allow_truncate=False, allow_surplus=True, a
     total = len(r.head) + len(r.body_wire)
     hints.append(total)
     # overrun: bytes after a length-delimited body
+    if surplus_same_read_only and (len(coded) == 0 or len(coded) % 4096 == 0):
+        allow_surplus = False
     if allow_surplus and framing == 'length' and tape.chance(1, 6, 'surplus'):
         r.surplus = tape.choice((b'X', b'\r\n', b'garbage after the message', b'HTTP/1.1 200 OK\r\nContent-Length: 1\r\n\r\nZ'), 'surplus.kind')
     if allow_truncate and total > 1 and tape.chance(1, 5, 'truncate'):
